@@ -14,10 +14,14 @@ for f in /verif/benign/*.diff; do
 done
 for s in $(seq 0 $((N-1))); do
   ( export VERIF_WT=/tmp/wt-matrix-$s
+    # every shard works from its own copy of the machinery (own shadow manifest, own build
+    # output): checks against different trees must not share a harness binary
+    SH=/tmp/verif-shard-$s; rm -rf $SH; mkdir -p $SH
+    rsync -a --exclude .build --exclude .git --exclude replays --exclude evidence /verif/ $SH/
     while read kind dir checks; do
-      /verif/tools/detect_all.sh "$OUTD/$kind.$s.jsonl" "$dir" $checks
+      $SH/tools/detect_all.sh "$OUTD/$kind.$s.jsonl" "$dir" $checks
     done < "$OUTD/jobs.$s"
-    git -C /repo worktree remove --force /tmp/wt-matrix-$s 2>/dev/null ) &
+    git -C /repo worktree remove --force /tmp/wt-matrix-$s 2>/dev/null; rm -rf $SH ) &
 done
 wait
 cat "$OUTD"/seeded.*.jsonl > "$OUTD/seeded.jsonl" 2>/dev/null; cat "$OUTD"/benign.*.jsonl > "$OUTD/benign.jsonl" 2>/dev/null
